@@ -32,6 +32,7 @@ type c13Case struct {
 	Scale   string    `json:"scale"` // 2E4 | 1E6 | 1E8 (worker driven through the shim on short files) | 1E8hdr (scale switch of main)
 	Files   []c13File `json:"files"`
 	Extras  []string  `json:"extras,omitempty"`   // non-sample files (other suffixes)
+	ExtraSizes []int  `json:"extra_sizes,omitempty"` // their sizes (smaller, equal to and larger than a sample; other supported sample sizes)
 	DirBin  string    `json:"dir_bin,omitempty"`  // a directory whose name ends in .bin / .dat
 	Workers int       `json:"workers"`
 	Race    bool      `json:"race,omitempty"` // run the binary / shim built with the race detector
@@ -289,7 +290,11 @@ func (c c13Case) materialise(dir string) (map[string][]byte, error) {
 	for i, e := range c.Extras {
 		p := filepath.Join(dir, e)
 		_ = os.MkdirAll(filepath.Dir(p), 0o755)
-		_ = os.WriteFile(p, gen.NewRng(uint64(i)).Bytes(10+37*i), 0o644)
+		size := 10 + 37*i
+		if i < len(c.ExtraSizes) {
+			size = c.ExtraSizes[i]
+		}
+		_ = os.WriteFile(p, gen.NewRng(uint64(i)).Bytes(size), 0o644)
 	}
 	if c.DirBin != "" {
 		p := filepath.Join(dir, c.DirBin)
@@ -597,6 +602,7 @@ func genC13(t *rapid.T) c13Case {
 	}
 	for i := rapid.IntRange(0, 5).Draw(t, "extras"); i > 0; i-- {
 		c.Extras = append(c.Extras, filepath.Join(rapid.SampledFrom(dirs).Draw(t, "xdir"), drawName(t)+rapid.SampledFrom([]string{".txt", ".csv", ".bin.bak", "", ".BIN"}).Draw(t, "xsuffix")))
+		c.ExtraSizes = append(c.ExtraSizes, rapid.SampledFrom([]int{0, 17, 2499, 2500, 2501, 4096, 125000, 200000}).Draw(t, "xsize"))
 	}
 	if c.Scale != "1E8" && rapid.IntRange(0, 5).Draw(t, "dirbin") == 0 {
 		c.DirBin = filepath.Join(rapid.SampledFrom(dirs).Draw(t, "bdir"), "zz"+drawName(t)+rapid.SampledFrom([]string{".bin", ".dat"}).Draw(t, "bsuffix"))
